@@ -194,6 +194,22 @@ pub fn run(out: &mut Out, tier: &str, seed: u64) {
             if kk.as_slice() != &k[..] || !same(&dryoc::kdf::StackKdf::from_parts(kk, cc), &kdf) { out.hit("parts.kdf.from_parts-differs", "kdf".into(), json!({})); }
         }
         if let Some((a, _)) = both_formats(out, "Kdf", &kdf, 0) { if a.derive_subkey_to_vec(7).ok() != kdf.derive_subkey_to_vec(7).ok() { out.hit("serde.roundtrip-changes-derivation.Kdf", "kdf".into(), json!({})); } }
+        // a password-hash record whose costs do not fit 32 bits (legal: the memory limit goes up to about 4 TiB); nothing is hashed
+        for mlim in [4294967295usize, 4294967296, 4294967297, 6 << 30, 1 << 40, 4398046510080] {
+            for olim in [3u64, 4294967296, u64::MAX >> 1] {
+                let cfg = dryoc::pwhash::Config::interactive().with_memlimit(mlim).with_opslimit(olim).with_salt_length(16).with_hash_length(32);
+                let ph: dryoc::pwhash::VecPwHash = dryoc::pwhash::PwHash::from_parts(vec![7u8; 32], vec![9u8; 16], cfg.clone());
+                out.search_evaluations += 3;
+                let rp = json!({"op":"serde.PwHash.large-costs","memlimit":mlim.to_string(),"opslimit":olim.to_string()});
+                let val = serde_json::to_value(&ph).ok();
+                let got_m = val.as_ref().and_then(|v| v.get("config")).and_then(|c| c.get("memlimit")).and_then(|x| x.as_u64());
+                let got_o = val.as_ref().and_then(|v| v.get("config")).and_then(|c| c.get("opslimit")).and_then(|x| x.as_u64());
+                if got_m != Some(mlim as u64) || got_o != Some(olim) { out.hit("serde.json.field-differs.PwHash.config", format!("memlimit {} opslimit {} serialised as {:?} / {:?}", mlim, olim, got_m, got_o), rp.clone()); }
+                if let Some((a, c)) = both_formats(out, "PwHash(large costs)", &ph, 0) {
+                    if format!("{:?}", a) != format!("{:?}", ph) || format!("{:?}", c) != format!("{:?}", ph) { out.hit("serde.roundtrip-differs.PwHash.large-costs", format!("memlimit {} opslimit {}", mlim, olim), rp.clone()); }
+                }
+            }
+        }
         let cfg = dryoc::pwhash::Config::interactive().with_opslimit(1).with_memlimit(8192).with_salt_length(19).with_hash_length(41);
         if let Ok(ph) = dryoc::pwhash::VecPwHash::hash_with_salt(&b"pw".to_vec(), rng.bytes(19), cfg) {
             { out.search_evaluations += 1;
